@@ -771,9 +771,50 @@ run_case(Out& o, Case& k, vh::Rng& rng, int case_id, bool thorough, std::map<std
            ok3 ? std::to_string(obj->get_max_segment_num_to_process()) : std::string("err"));
     ++hist["malformed-use"];
   }
+  // "every legal number of subsets": set_up refuses exactly the subset numbers whose subsets do not contain the same number of
+  // viewgrams, and those only if subset sensitivities are off.  Independent count: every (segment, view) of the segment range
+  // belongs to the subset given by the view number of its basic (segment, view).
+  auto check_balance = [&](int n, bool use_subset_sens, bool accepted) {
+    std::vector<long> counts(n, 0);
+    const bool counted = guarded([&] {
+      const DataSymmetriesForViewSegmentNumbers& sy = *k.pair->get_symmetries_used();
+      for (int seg = -k.maxseg_eff; seg <= k.maxseg_eff; ++seg)
+        for (int view = k.g.pdi->get_min_view_num(); view <= k.g.pdi->get_max_view_num(); ++view)
+          {
+            ViewSegmentNumbers vs(view, seg);
+            sy.find_basic_view_segment_numbers(vs);
+            counts[(vs.view_num() - k.g.pdi->get_min_view_num()) % n]++;
+          }
+    });
+    if (!counted)
+      return;
+    bool balanced = true;
+    std::string cs;
+    for (int s = 0; s < n; ++s)
+      balanced = balanced && counts[s] == counts[0], cs += " " + std::to_string(counts[s]);
+    o.line(std::string("balance ") + (use_subset_sens ? "1" : "0") + cs, accepted ? "ok" : "refused");
+    ++o.checks;
+    ++hist[balanced ? "subsets-balanced" : "subsets-unbalanced"];
+    if (accepted != (balanced || use_subset_sens))
+      o.fail(std::string("set_up ") + (accepted ? "accepts" : "refuses") + " num_subsets=" + std::to_string(n) + " with viewgrams per subset" + cs
+             + " and use_subset_sensitivities=" + (use_subset_sens ? "1" : "0") + " " + c.str());
+  };
   for (int n = 1; n <= views; ++n)
     {
-      if (!thorough && n > 4 && views % n != 0)
+      const bool full_run = thorough || n <= 4 || views % n == 0;
+      if (!full_run || c.use_subset_sens)
+        {
+          // the refusal alone, with subset sensitivities off (every number of subsets, also those the quick tier runs nothing else for)
+          Holder ob(0);
+          configure(*ob, k, n);
+          ob->set_use_subset_sensitivities(false);
+          const bool acc = guarded([&] {
+            if (ob->set_up(k.image) != Succeeded::yes)
+              throw 1;
+          });
+          check_balance(n, false, acc);
+        }
+      if (!full_run)
         continue;
       Holder obj(rng.coin() ? 0 : 1);
       configure(*obj, k, n);
@@ -788,35 +829,7 @@ run_case(Out& o, Case& k, vh::Rng& rng, int case_id, bool thorough, std::map<std
           threw = true;
         }
       const bool accepted = !threw && su == Succeeded::yes;
-      // ---- "every legal number of subsets": set_up refuses exactly the subset numbers whose subsets do not contain the same number of
-      // viewgrams, and those only if subset sensitivities are off.  Independent count: every (segment, view) of the segment range
-      // belongs to the subset given by the view number of its basic (segment, view).
-      {
-        std::vector<long> counts(n, 0);
-        const bool counted = guarded([&] {
-          const DataSymmetriesForViewSegmentNumbers& sy = *k.pair->get_symmetries_used();
-          for (int seg = -k.maxseg_eff; seg <= k.maxseg_eff; ++seg)
-            for (int view = k.g.pdi->get_min_view_num(); view <= k.g.pdi->get_max_view_num(); ++view)
-              {
-                ViewSegmentNumbers vs(view, seg);
-                sy.find_basic_view_segment_numbers(vs);
-                counts[(vs.view_num() - k.g.pdi->get_min_view_num()) % n]++;
-              }
-        });
-        if (counted)
-          {
-            bool balanced = true;
-            std::string cs;
-            for (int s = 0; s < n; ++s)
-              balanced = balanced && counts[s] == counts[0], cs += " " + std::to_string(counts[s]);
-            o.line(std::string("balance ") + (c.use_subset_sens ? "1" : "0") + cs, accepted ? "ok" : "refused");
-            ++o.checks;
-            ++hist[balanced ? "subsets-balanced" : "subsets-unbalanced"];
-            if (accepted != (balanced || c.use_subset_sens))
-              o.fail(std::string("set_up ") + (accepted ? "accepts" : "refuses") + " num_subsets=" + std::to_string(n) + " with viewgrams per subset" + cs
-                     + " and use_subset_sensitivities=" + (c.use_subset_sens ? "1" : "0") + " " + c.str());
-          }
-      }
+      check_balance(n, c.use_subset_sens, accepted);
       if (!accepted)
         {
           ++hist["setup-refused"];
